@@ -15,6 +15,14 @@ const CANCELLING: [&str; 24] = [
     "J/N", "V*A", "C/s", "W*s", "N*m", "Pa*m^3", "Wb/s", "J/C", "kg*m/s^2", "N/Pa", "W/A", "C/V", "V/A", "A/V", "V*s", "Wb/m^2", "Wb/A", "J/kg", "mol/s", "cd/m^2", "m/s", "m/s^2", "1/s", "kg*m^2/s^3",
 ];
 
+/// Powers, prefixes under powers, three-factor and partly cancelling spellings
+/// (areas vs ha/acre, volumes vs l/gal/cc, s^-1 vs Bq, kg*m^2/s^2 vs J, ...).
+const POWERED: [&str; 40] = [
+    "m^2", "m^3", "km^2", "cm^2", "cm^3", "mm^3", "dm^3", "ft^2", "ft^3", "in^3", "yd^2", "mi^2", "s^-1", "s^-2", "s^2", "m^-1", "m^-2", "m^-3", "g^2", "A^2",
+    "K^-1", "kg*m^2/s^2", "N*m/s", "A*s", "m^2/s^2", "W/m^2", "kg/m^3", "g/cm^3", "N/m^2", "J/m^3", "Pa*s", "m*m", "m*m*m", "m^2*m", "m^3/m", "m^3/m^2", "km*m", "ft*in", "N*s^2/kg",
+    "J*s/kg/m",
+];
+
 /// The spelling set S.
 pub fn spellings(tier: Tier) -> Vec<String> {
     let mut s: Vec<String> = Vec::new();
@@ -44,6 +52,9 @@ pub fn spellings(tier: Tier) -> Vec<String> {
         }
     }
     for c in CANCELLING {
+        s.push(c.to_string());
+    }
+    for c in POWERED {
         s.push(c.to_string());
     }
     if tier == Tier::Thorough {
@@ -85,7 +96,7 @@ impl Prop for C02 {
         "C02"
     }
     fn rule(&self) -> String {
-        "spelling set S = one typeable name of each of the 84 proportional units, their k-/m- prefixed forms where the word has a single reading, all u*v and u/v over a 14-unit (thorough 26-unit) core, 24 hand-listed cancelling spellings (thorough: plus every alias); all ordered pairs (a,b) of S x {`1 a + 1 b`, `3 a - 1 b`, `1 a to b`}; plus `2 + 1 q`, `1 q + 2`, `5 - 1 q`, `1 q - 5` for every q in S. Oracle: Ok iff the independent table gives both sides the same base dimensions; on Ok the SI value is the exact sum/difference/rescaling and a cast result is expressed in the target's unit; a plain number adopts the quantity's unit in both orders. Non-trivial = both sides have non-empty units; distinct = distinct query strings".into()
+        "spelling set S = one typeable name of each of the 84 proportional units, their k-/m- prefixed forms where the word has a single reading, all u*v and u/v over a 14-unit (thorough 26-unit) core, 24 hand-listed cancelling spellings, 40 powered / prefixed-and-powered / three-factor / partly cancelling spellings (m^2 vs ha, cm^3 vs l, s^-1 vs Bq, kg*m^2/s^2 vs J, m^3/m, km*m) (thorough: plus every alias); all ordered pairs (a,b) of S x {`1 a + 1 b`, `3 a - 1 b`, `1 a to b`}; plus `2 + 1 q`, `1 q + 2`, `5 - 1 q`, `1 q - 5` for every q in S. Oracle: Ok iff the independent table gives both sides the same base dimensions; on Ok the SI value is the exact sum/difference/rescaling and a cast result is expressed in the target's unit; a plain number adopts the quantity's unit in both orders. Non-trivial = both sides have non-empty units; distinct = distinct query strings".into()
     }
     fn assumptions(&self) -> Vec<String> {
         vec![
